@@ -504,4 +504,33 @@ theorem add_discard_unreachable (cfg : Cfg) (hm : cfg.mode ≠ .quota) (items : 
 example : keyTLSize [] [] false + itemTLSize {} [] = 20 ∧ itemRowSize [] {} [] = 128 := by decide
 
 
+/-! ## 8. consecutive samplers sharing SamplerBuffers -/
+
+/-- each_item_once_seq. The aggregator hands the SamplerBuffers of one insert to the sampler of the next
+    (aggregator_insert.go). Because NewSampler truncates them (`newSamplerItems`), the decisions of every sampler of such
+    a sequence are, up to order, exactly the rows handed to THAT sampler — whatever the earlier samplers were given:
+    no row of an earlier run is decided (and inserted) again. Every sequence, configuration, budget, draw stream. -/
+theorem each_item_once_seq (left : List Item) (runs : List RunIn) :
+    List.Forall₂ (fun acts r => ((evs acts).map (·.id)).Perm (r.items.map (·.id))) (runSeq left runs) runs := by
+  induction runs generalizing left with
+  | nil => exact List.Forall₂.nil
+  | cons r rs ih =>
+    simp only [runSeq]
+    refine List.Forall₂.cons ?_ (ih _)
+    simp only [runShared, newSamplerItems, List.nil_append]
+    exact each_item_once r.cfg r.items r.budget r.draws
+
+/-- a run's decisions do not depend on what the previous sampler left in the buffers -/
+theorem runShared_independent (cfg : Cfg) (left left' : List Item) (items : List Item) (budget : Int) (ds : List Nat) :
+    runShared cfg left items budget ds = runShared cfg left' items budget ds := rfl
+
+/-- why the truncation matters: were the row left behind by the previous run still in `items`, it would be decided a second
+    time by the next sampler (the seeded change C05-r2-1; oracle signature `row-decided-in-later-run`) -/
+example :
+    let old : Item := { id := 7, size := 10, metric := 1 }
+    let new : Item := { id := 0, size := 10, metric := 2 }
+    (evs (runBucket {} ([old] ++ [new]) 100 [])).map (·.id) = [7, 0] ∧
+    (evs (runShared {} [old] [new] 100 []).1).map (·.id) = [0] := by decide
+
+
 end SH.Sampler
